@@ -89,6 +89,7 @@ package zlib
 //@   ensures@5[C07 eof-checked] checksum == lastSum32 && uint32(z.scratch[0])<<24|uint32(z.scratch[1])<<16|uint32(z.scratch[2])<<8|uint32(z.scratch[3]) == checksum
 //@   ensures@5[C05 stops-after-trailer] srcConsumed == srcMark
 //@   ensures@4[C07 mismatch-is-error] err == ErrChecksum
+//@   ensures@4[C06 C07 mismatch-real] uint32(z.scratch[0])<<24|uint32(z.scratch[1])<<16|uint32(z.scratch[2])<<8|uint32(z.scratch[3]) != lastSum32
 //@   ensures@3[C07 C15 trailer-cut] err != io.EOF && (rfErr == io.EOF ==> err == io.ErrUnexpectedEOF) && (rfErr != io.EOF ==> err == rfErr)
 //@   ensures@2[C15 src-err] err != io.EOF
 //@   ensures[C07 eof-only-checked] err == io.EOF && old(z.err) == nil ==> z.err == io.EOF
